@@ -124,6 +124,10 @@ def _env_of(interp, frame, extra):
         env.update(d)
     env.update(frame.locals)
     env.update(interp.reg.ghost_env)
+    # `trace`: the ghost events of this path (on the arbitrary-iteration path: those before the loop and those
+    # of this one iteration, which is how an invariant can check the calls an iteration makes); `ghost`
+    env.setdefault('trace', interp.st.trace)
+    env.setdefault('ghost', interp.st.ghost)
     env.update(extra)
     return env
 
